@@ -67,8 +67,11 @@ R.contract("crashtest.frame_collection:FrameCollection.__init__", params={}, ens
 R.contract("crashtest.frame_collection:FrameCollection.append", params={"frame": "ref TraceFrame"},
            ensures=["self.g_items == old(self.g_items) + seq([frame])"], modifies=["self.g_items"], assumed=True,
            note="list.append")
+# verbosity DEBUG of the standard output: both getters are verified (gate arithmetic: C10)
+R.contract(ioc.M_OUT + ":Output.is_debug", params={}, returns="bool", ensures=["result == (self._verbosity == 4)"], modifies=[])
 R.contract(ioc.M_IO + ":IO.is_debug", params={}, returns="bool", ensures=["result == (self._output._verbosity == 4)"],
-           modifies=[], assumed=True, note="verbosity DEBUG of the standard output (gate arithmetic: C10)")
+           modifies=[])
+IS_DEBUG_TARGETS = [ioc.M_OUT + ":Output.is_debug", ioc.M_IO + ":IO.is_debug"]
 IGNORED = "(self._ignore is not None and len(self._ignore) > 0 and re_match(self._ignore, %s.g_filename) and io._output._verbosity != 4)"
 R.contract(
     RT, variant="filter", cut_after_loop=0,
